@@ -27,6 +27,11 @@ type C08Inject struct {
 	Token  string `json:"token"`   // none | own | other | otherproto | damaged | invalidated | fresh
 	Mutate int    `json:"mutate"`  // 0 = verbatim, n>0 = mutation ordinal n-1
 	AsType int    `json:"as_type"` // 0 = keep message type, else send the body as this type
+	// ErrBody (with AsType 255) chooses the body of the error report: 0 the
+	// picked request's own body (not an error message at all), 1 empty, 2 a CBOR
+	// text string, 3-6 a well-formed error message naming message type 0, 99,
+	// the start message of another protocol, or the picked request's type.
+	ErrBody int `json:"err_body,omitempty"`
 }
 
 type C08Plan struct {
@@ -174,6 +179,18 @@ func (p *c08) Plan(tier string, seed uint64, i int) any {
 		for _, m := range []int{12, 22, 32, 70, 62, 66, 68} {
 			pl.Inject = append(pl.Inject, C08Inject{After: 36 + r.IntN(8), Pick: -m, Token: "invalidated"})
 		}
+		return pl
+	}
+	if base := 2*sweep + 40 + 48 + 2*len(c08DoneReads) + 120; i >= base && i < base+98 {
+		// a session ended by a client-reported error (type 255 under the session's
+		// token, in every shape the body can take): the honest client's next
+		// request and a replay of an earlier one must both be refused
+		j := i - base
+		pl.Sql = j%2 == 1
+		pl.Devices = 2
+		kill := []int{62, 64, 66, 68, 12, 22, 32}[j%7]
+		reuse := map[int]int{62: 62, 64: 62, 66: 62, 68: 66, 12: 12, 22: 22, 32: 32}[kill]
+		pl.Inject = []C08Inject{{After: 20 + r.IntN(20), Pick: -kill, Token: "own", AsType: 255, ErrBody: (j / 7) % 7}, {After: 0, Pick: -reuse, Token: "invalidated"}}
 		return pl
 	}
 	if i < 2*sweep+40+48+2*len(c08DoneReads) {
@@ -423,6 +440,18 @@ func (p *c08) Exec(env *Env, plan any) {
 				if node == "" {
 					node = "owner1"
 				}
+				if in.ErrBody > 0 {
+					prev := map[int]uint8{3: 0, 4: 99, 5: map[string]uint8{"DI": 60, "TO0": 10, "TO1": 60, "TO2": 30, "": 10}[protoOf(int(src.MsgType))], 6: src.MsgType}[in.ErrBody]
+					switch in.ErrBody {
+					case 1:
+						body = nil
+					case 2:
+						body, _ = cbor.Marshal("device gave up")
+					default:
+						body, _ = cbor.Marshal(protocol.ErrorMessage{Code: 100, PrevMsgType: prev, ErrString: "x"})
+					}
+					desc += fmt.Sprintf("+errbody%d", in.ErrBody)
+				}
 			}
 			// token choice
 			tokensOf := func(pred func(ev *NetEvent) bool) []string {
@@ -483,8 +512,11 @@ func (p *c08) Exec(env *Env, plan any) {
 				// error), presented with one of that session's own earlier requests
 				var endedToks []string
 				for _, ev := range s.Net.Log {
-					if ev.Phase == "resp" && (ev.RespType == 13 || ev.RespType == 23 || ev.RespType == 33 || ev.RespType == 71 || ev.RespType == 255) {
+					if ev.Phase == "resp" {
 						for _, rq := range s.Net.Log {
+							if !(ev.RespType == 13 || ev.RespType == 23 || ev.RespType == 33 || ev.RespType == 71 || ev.RespType == 255 || (rq.Seq == ev.ReqSeq && rq.Phase == "req" && rq.MsgType == 255)) {
+								continue
+							}
 							if rq.Seq == ev.ReqSeq && rq.Phase == "req" && rq.Token != "" && rq.MsgType != 10 && rq.MsgType != 20 && rq.MsgType != 30 && rq.MsgType != 60 {
 								// tokens are per node: the session only ended if the
 								// node that issued the token gave that answer
@@ -624,8 +656,13 @@ func (p *c08) Exec(env *Env, plan any) {
 		if ev.Phase != "resp" {
 			continue
 		}
-		if ev.RespType == 13 || ev.RespType == 23 || ev.RespType == 33 || ev.RespType == 71 || ev.RespType == 255 {
+		{
 			for _, rq := range s.Net.Log {
+				// a final answer, an error answer, or an error reported by the client
+				// under the session's token
+				if !(ev.RespType == 13 || ev.RespType == 23 || ev.RespType == 33 || ev.RespType == 71 || ev.RespType == 255 || (rq.Seq == ev.ReqSeq && rq.Phase == "req" && rq.MsgType == 255)) {
+					continue
+				}
 				if rq.Seq == ev.ReqSeq && rq.Phase == "req" {
 					t := rq.Token
 					if mt := rq.MsgType; mt == 10 || mt == 20 || mt == 30 || mt == 60 {
@@ -693,6 +730,30 @@ func (p *c08) Exec(env *Env, plan any) {
 		if (ir.in.Token == "none" || ir.in.Token == "damaged" || ir.in.Token == "damaged-tail") && ir.msg != 10 && ir.msg != 20 && ir.msg != 30 && ir.msg != 60 && ir.msg != 255 && ir.resp > 0 && ir.resp != 255 {
 			o.Class = "NO-TOKEN-ACCEPTED"
 			o.Violate("C08", "tokenless-request-accepted", fmt.Sprintf("%d|%s", ir.msg, ir.in.Token), "request type %d with token choice %q was answered %d (%s)", ir.msg, ir.in.Token, ir.resp, ir.desc)
+		}
+	}
+	// the same for the honest clients: once a session has ended (for instance
+	// because somebody reported an error under its token) its owner's next
+	// request is refused as well
+	for _, rq := range s.Net.Log {
+		if rq.Phase != "req" || rq.Adversary || rq.Token == "" || rq.MsgType == 255 || rq.MsgType == 10 || rq.MsgType == 20 || rq.MsgType == 30 || rq.MsgType == 60 {
+			continue
+		}
+		e, isEnded := ended[rq.Token]
+		if !isEnded || e >= rq.Seq || issuer[rq.Token] != rq.To {
+			continue
+		}
+		for _, ev := range s.Net.Log {
+			if ev.Phase == "resp" && ev.ReqSeq == rq.Seq && ev.Status == 200 && ev.RespType != 255 && ev.RespType > 0 {
+				o.Class = "ENDED-TOKEN-ACCEPTED"
+				o.Violate("C08", "ended-token-accepted", fmt.Sprintf("%d|honest", rq.MsgType), "request type %d of the honest client, sent after its session had ended at event %d, was answered %d", rq.MsgType, e, ev.RespType)
+			}
+		}
+		for _, je := range journal[min(rq.EffFrom, len(journal)):min(rq.EffTo, len(journal))] {
+			if c08Forbidden[je.Op] && je.Node == rq.To {
+				o.Class = "UNJUSTIFIED-EFFECT"
+				o.Violate("C08", "unjustified-effect", fmt.Sprintf("%d|honest-after-end|%s", rq.MsgType, je.Op), "request type %d of the honest client, sent after its session had ended at event %d, caused effect %s", rq.MsgType, e, je.Op)
+			}
 		}
 	}
 	// a participant that skipped a step: from the deviation on, none of its
